@@ -30,6 +30,10 @@ Theorem C06_chunk_walks_are_guarded : unreviewed_loops = [].
 Proof. exact chunk_walks_are_guarded. Qed.
 Print Assumptions C06_chunk_walks_are_guarded.
 
+Theorem C06_tokenizer_loops_are_guarded : open_char_loops = [].
+Proof. exact tokenizer_loops_are_guarded. Qed.
+Print Assumptions C06_tokenizer_loops_are_guarded.
+
 Theorem C06_lexspec_progress : forall fuel s l, Forall (fun t => tt t <> []) (lex_all fuel s l).
 Proof. exact lex_all_nonempty. Qed.
 Print Assumptions C06_lexspec_progress.
